@@ -195,7 +195,7 @@ def atoms_of(t, acc=None, depth=0):
 
 
 POINT_OPS = {'Add', 'Sub', 'Mul', 'Div', 'Rem', 'itof', 'floor', 'fabs', 'Shr', 'Shl', 'BitAnd', 'BitOr', 'BitXor', 'Neg',
-             'Eq', 'Ne', 'Lt', 'Le', 'Gt', 'Ge', 'sqrt', 'min', 'max', 'ftof32', 'trunc', 'And', 'Or', 'Not'}
+             'Eq', 'Ne', 'Lt', 'Le', 'Gt', 'Ge', 'sqrt', 'min', 'max', 'ftof32', 'trunc', 'And', 'Or', 'Not', 'tbl'}
 
 
 def point_eval(t, env, depth=0):
@@ -257,6 +257,11 @@ def point_eval(t, env, depth=0):
         return a[0] | a[1]
     if op == 'BitXor':
         return a[0] ^ a[1]
+    if op == 'tbl':
+        tab = env.get('__tables__', {}).get(a[0])
+        if tab is None or not (0 <= a[1] < len(tab)):
+            raise NotNormal('table lookup outside a known table')
+        return tab[a[1]]
     if op == 'trunc':
         x, bits, signed = a
         x &= (1 << bits) - 1
